@@ -95,35 +95,70 @@ def plain_group(pipe, items, complete=True):
 
 
 def pair_direct(rng, pipe, groups):
-    """groups: {idx: items}.  mux: events pushed directly, keys interleaved."""
-    lts = [(idx, items) for idx, items in groups.items()]
-    src = G.schedule(rng, lts)
-    tr = M.run_mux(pipe, src)
+    """groups: list of (idx, items); several groups may use the same key index one after
+    the other (a key slot served again by a later group).  mux: events pushed directly,
+    keys interleaved, taps at the two ends of the pipeline only."""
+    if isinstance(groups, dict):
+        groups = list(groups.items())
+    src = G.schedule(rng, groups)
+    tr = M.run_mux(pipe, src, taps='ends')
     tail = MC.log_of(tr, [len(pipe)])
     b0 = MC.log_of(tr, [0])
     died = tr['end']['t'] == 'error'
-    dead_key, pushed = None, {}
+    # lifetimes at the source, in creation order per index
+    life_of_event = {}
+    count = {}
+    cur = {}
+    pushed = {}
+    dead_life = None
     for e in b0:
-        if e['t'] == 'n':
-            pushed[e['k'][0]] = pushed.get(e['k'][0], 0) + 1
+        k = e['k'][0]
+        if e['t'] == 'c':
+            count[k] = count.get(k, 0) + 1
+            cur[k] = (k, count[k])
+        elif e['t'] == 'n':
+            pushed[cur[k]] = pushed.get(cur[k], 0) + 1
             if died and e['o'] < tr['end']['o']:
-                dead_key = e['k'][0]
+                dead_life = cur[k]
+    # lifetimes at the tail
+    tcount, tcur, out_of = {}, {}, {}
+    for e in tail:
+        k = e['k'][0]
+        if e['t'] == 'c':
+            tcount[k] = tcount.get(k, 0) + 1
+            tcur[k] = (k, tcount[k])
+        elif e['t'] == 'n' and k in tcur:
+            out_of.setdefault(tcur[k], []).append(e['v'])
     out = []
-    for idx, items in groups.items():
-        mux_items = [e['v'] for e in tail if e['t'] == 'n' and e['k'][0] == idx]
+    seen = {}
+    for idx, items in groups:
+        seen[idx] = seen.get(idx, 0) + 1
+        life = (idx, seen[idx])
+        mux_items = out_of.get(life, [])
         if not died:
             pr, perr = plain_group(pipe, items)
             g = {'items': items, 'mux': mux_items, 'muxerr': 0, 'plain': [o['v'] for o in pr['out']],
                  'plainend': pr['end'], 'plainerr': perr, 'errtype': pr.get('errtype')}
         else:
-            got = items[:pushed.get(idx, 0)]
-            pr, perr = plain_group(pipe, got, complete=False)
-            g = {'items': got, 'mux': mux_items, 'muxerr': pushed.get(idx, 0) if idx == dead_key else 0,
+            got = items[:pushed.get(life, 0)]
+            completed = _completed_before_death(b0, tr['end']['o'], idx, seen[idx])
+            pr, perr = plain_group(pipe, got, complete=completed)
+            g = {'items': got, 'mux': mux_items, 'muxerr': pushed.get(life, 0) if life == dead_life else 0,
                  'plain': [o['v'] for o in pr['out']],
                  'plainend': 'completed' if pr['end'] == 'open' else pr['end'], 'plainerr': perr,
                  'errtype': pr.get('errtype')}
         out.append(g)
     return tr, out
+
+
+def _completed_before_death(b0, dead_o, idx, nth):
+    n = 0
+    for e in b0:
+        if e['k'][0] == idx and e['t'] == 'c':
+            n += 1
+        if e['k'][0] == idx and e['t'] == 'd' and n == nth:
+            return e['o'] < dead_o
+    return False
 
 
 def pair_grouped(pipe, items, c):
@@ -152,7 +187,7 @@ def main(tier, replay):
     if replay:
         w = json.load(open(replay))['witness']
         pipe = json.loads(w['pipe'])
-        groups = {int(k): v for k, v in w['groups'].items()}
+        groups = [(g[0], g[1]) for g in w['groups']]
         tr, gs = pair_direct(random.Random(w.get('sched_seed', 0)), pipe, groups)
         v, _ = C.validate_traces('PlainTrace', [{'pipe': pipe, 'modeled': modeled(pipe), 'oracle': 'pair',
                                                  'groups': [{k: g[k] for k in g if k != 'errtype'}
@@ -209,8 +244,10 @@ def main(tier, replay):
             groups = None
         else:
             nk = rng.choice([1, 2, 3, 4])
-            groups = {idx: G.ints([rng.randint(0, 5) for _ in range(rng.randint(1, 7))])
-                      for idx in rng.sample([0, 1, 2, 5, 8], nk)}
+            groups = []
+            for idx in rng.sample([0, 1, 2, 5, 8], nk):
+                for _ in range(rng.choice([1, 1, 2, 3])):     # later groups on the same key slot
+                    groups.append((idx, G.ints([rng.randint(-1, 5) for _ in range(rng.randint(1, 7))])))
             sched_seed = rng.randint(0, 10**9)
             tr, gs = pair_direct(random.Random(sched_seed), pipe, groups)
             mode = 'direct'
@@ -227,8 +264,8 @@ def main(tier, replay):
         pre = rng.choice([[], [G.op_map('addc', 1)], [G.op_filter('gec', 1)]])
         post = rng.choice([[], [G.op_scan('add', I(0))], [{'op': 'count', 'reduce': False}]])
         pipe = pre + [a] + post
-        groups = {idx: G.ints([rng.randint(0, 4) for _ in range(rng.randint(1, 6))])
-                  for idx in rng.sample([0, 1, 3], rng.choice([1, 2, 3]))}
+        groups = [(idx, G.ints([rng.randint(0, 4) for _ in range(rng.randint(1, 6))]))
+                  for idx in rng.sample([0, 1, 3], rng.choice([1, 2, 3]))]
         sched_seed = rng.randint(0, 10**9)
         tr, gs = pair_direct(random.Random(sched_seed), pipe, groups)
         traces.append({'pipe': pipe, 'modeled': True, 'oracle': 'pair',
